@@ -419,7 +419,9 @@ def c17_stage(scratch, tier, log):
 ALLOC_METHODS = {"to_vec", "to_owned", "to_string", "collect", "push", "push_str", "extend", "extend_from_slice", "resize", "reserve",
                  "reserve_exact", "insert", "append", "into_boxed_slice", "into_vec", "repeat", "concat", "join", "split_off", "drain_filter",
                  "make_scratch_vec", "make_input_vec", "make_output_vec", "with_capacity", "shrink_to_fit", "shrink_to", "dedup", "retain",
-                 "truncate", "clear", "pop", "remove", "swap_remove", "clone"}
+                 "truncate", "clear", "pop", "remove", "swap_remove", "clone",
+                 "sort", "sort_by", "sort_by_key", "sort_by_cached_key", "into_owned", "to_uppercase", "to_lowercase"}
+OWNING_TYPE = re.compile(r"\b(Vec|Box|String|Arc|Rc|VecDeque|HashMap|BTreeMap|Cow)\b")
 ALLOC_PATHS = re.compile(r"\b(Vec|String|Box|Arc|Rc|HashMap|BTreeMap|VecDeque)::(new|with_capacity|from|from_iter|default)\b|\bformat\b|\bvec\b")
 DEALLOC_ONLY = {"truncate", "clear", "pop", "remove", "swap_remove"}
 
@@ -447,6 +449,9 @@ def c09_function(T, fname, body, obs):
             f = rp.show(n[1])
             if ALLOC_PATHS.search(f) or f in ("make_buffer", "resize_buffer"):
                 problems.append("`%s(..)` allocates" % f)
+        if n[0] == "let" and n[2] and OWNING_TYPE.search(n[2]) and not n[2].lstrip().startswith("&"):
+            # a local of an owning heap type is created (conversion through `.into()` / `From` included) and dropped here
+            problems.append("`let %s: %s = ..` creates (and drops) an owned heap value" % (n[1][1], n[2].replace(" ", "")))
         if n[0] == "assign":
             # assigning a fresh Vec to a field drops (deallocates) the old one
             if re.search(r"\.to_vec\(\)|vec!|Vec::", rp.show(n[3])):
